@@ -15,12 +15,68 @@ import (
 	"golang.org/x/tools/go/ssa"
 )
 
+// State: heap plus the path condition kept as a list of conjuncts (so that forks share a prefix, merges factor it
+// out again, and feasibility queries can be sliced by constraint independence).
 type State struct {
-	heap *Heap
-	pc   *Term
+	heap   *Heap
+	pcs    []*Term
+	isDead bool
+	pcMemo *Term
 }
 
-func (st *State) dead() bool { return st.pc.IsFalse() }
+func (st *State) dead() bool { return st.isDead }
+
+func (st *State) kill() { st.isDead = true; st.pcs = nil; st.pcMemo = nil }
+
+func (st *State) assume(c *Term) {
+	if st.isDead || c.IsTrue() {
+		return
+	}
+	if c.IsFalse() {
+		st.kill()
+		return
+	}
+	// cheap syntactic contradiction / redundancy detection against the existing conjuncts
+	var nc *Term
+	if c.Op == OpNot {
+		nc = c.Args[0]
+	}
+	for _, p := range st.pcs {
+		if p == c {
+			return
+		}
+		if p == nc || (p.Op == OpNot && p.Args[0] == c) {
+			st.kill()
+			return
+		}
+		if c.Op == OpEq && p.Op == OpEq && c.Args[1].IsConst() && p.Args[1].IsConst() && c.Args[0] == p.Args[0] && c.Args[1] != p.Args[1] {
+			st.kill()
+			return
+		}
+	}
+	// full-slice append: never alias a sibling's backing array
+	st.pcs = append(st.pcs[:len(st.pcs):len(st.pcs)], c)
+	st.pcMemo = nil
+}
+
+func (st *State) pcTerm() *Term {
+	if st.isDead {
+		return False
+	}
+	if st.pcMemo == nil {
+		st.pcMemo = AndN(st.pcs...)
+		if st.pcMemo.IsFalse() {
+			st.isDead = true
+		}
+	}
+	return st.pcMemo
+}
+
+func (st *State) fork(g *Term) *State {
+	n := &State{heap: newHeap(st.heap), pcs: st.pcs[:len(st.pcs):len(st.pcs)], isDead: st.isDead}
+	n.assume(g)
+	return n
+}
 
 type deferred struct {
 	g    *Term
@@ -192,8 +248,8 @@ func (ex *Exec) panicIf(st *State, cond *Term, kind string, instr ssa.Instructio
 	if cond.IsFalse() || st.dead() {
 		return
 	}
-	ex.panics = append(ex.panics, Event{Kind: kind, PC: And(st.pc, cond), Pos: ex.pos(instr), Case: ex.curCase, Msg: strings.Join(ex.ctxTail(4), " < ")})
-	st.pc = And(st.pc, Not(cond))
+	ex.panics = append(ex.panics, Event{Kind: kind, PC: And(st.pcTerm(), cond), Pos: ex.pos(instr), Case: ex.curCase, Msg: strings.Join(ex.ctxTail(4), " < ")})
+	st.assume(Not(cond))
 }
 
 func (ex *Exec) ctxTail(n int) []string {
@@ -213,14 +269,13 @@ func (ex *Exec) feasible(st *State, c *Term) bool {
 		feasCount[strings.Join(ex.ctxTail(1), "")+" "+ex.feasTag]++
 		feasMu.Unlock()
 	}
-	f := And(st.pc, c)
-	if f.IsFalse() {
+	if c.IsFalse() || st.dead() {
 		return false
 	}
-	if f.IsTrue() || !ex.checkFeas || ex.solver == nil {
+	if c.IsTrue() || !ex.checkFeas || ex.solver == nil {
 		return true
 	}
-	return ex.solver.CheckSat(ex.feasTimeout, f) != "unsat"
+	return ex.solver.Feasible(ex.feasTimeout, st.pcs, c) != "unsat"
 }
 
 // ---------------------------------------------------------------- post-dominators
@@ -340,7 +395,7 @@ func (ex *Exec) mergeArms(st *State, fr *Frame, arms []*arm) Value {
 		}
 	}
 	if len(live) == 0 {
-		st.pc = False
+		st.kill()
 		return nil
 	}
 	if len(live) == 1 {
@@ -348,7 +403,7 @@ func (ex *Exec) mergeArms(st *State, fr *Frame, arms []*arm) Value {
 		for k, v := range a.st.heap.m {
 			st.heap.m[k] = v
 		}
-		st.pc = a.st.pc
+		st.pcs, st.isDead, st.pcMemo = a.st.pcs, a.st.isDead, nil
 		if fr != nil && a.fr != nil {
 			fr.regs = a.fr.regs
 			fr.visits = a.fr.visits
@@ -385,11 +440,22 @@ func (ex *Exec) mergeArms(st *State, fr *Frame, arms []*arm) Value {
 		}
 		st.heap.m[k] = acc
 	}
-	pc := False
+	// path condition: common prefix (the parent's conjuncts) ∧ (∨ over arms of their own suffixes)
+	n0 := len(st.pcs)
 	for _, a := range live {
-		pc = Or(pc, a.st.pc)
+		k := 0
+		for k < n0 && k < len(a.st.pcs) && a.st.pcs[k] == st.pcs[k] {
+			k++
+		}
+		n0 = k
 	}
-	st.pc = pc
+	disj := False
+	for _, a := range live {
+		disj = Or(disj, AndN(a.st.pcs[n0:]...))
+	}
+	st.pcs = st.pcs[:n0:n0]
+	st.pcMemo = nil
+	st.assume(disj)
 	var rv Value
 	for i := len(live) - 1; i >= 0; i-- {
 		a := live[i]
@@ -461,17 +527,17 @@ func (ex *Exec) forkN(st *State, fr *Frame, guards []*Term, body func(i int, st 
 		idx = keep
 	}
 	if len(idx) == 0 {
-		st.pc = False
+		st.kill()
 		return nil
 	}
 	if len(idx) == 1 {
 		// the only feasible alternative: its guard is implied (or assumed) by pc
-		st.pc = And(st.pc, guards[idx[0]])
+		st.assume(guards[idx[0]])
 		return body(idx[0], st, fr)
 	}
 	arms := make([]*arm, 0, len(idx))
 	for _, i := range idx {
-		a := &arm{g: guards[i], st: &State{heap: newHeap(st.heap), pc: And(st.pc, guards[i])}}
+		a := &arm{g: guards[i], st: st.fork(guards[i])}
 		if fr != nil {
 			a.fr = fr.clone()
 		}
@@ -503,22 +569,22 @@ func (ex *Exec) callFunction(st *State, fn *ssa.Function, args []Value, site ssa
 		// variable at the zero value (recorded); the harness fails visibly if it depends on such a variable
 		ex.inLenient = true
 		nctx := len(ex.ctx)
-		pc0 := st.pc
+		pc0, dead0 := st.pcs, st.isDead
 		var res Value
 		func() {
 			defer func() {
 				if e := recover(); e != nil {
 					ex.ctx = ex.ctx[:nctx]
 					ex.initSkipped = append(ex.initSkipped, fmt.Sprintf("%s: %v", name, e))
-					st.pc = pc0
+					st.pcs, st.isDead, st.pcMemo = pc0, dead0, nil
 					res = zeroResult(fn)
 				}
 			}()
 			res = ex.callFunction(st, fn, args, site, depth)
 		}()
-		if st.dead() && !pc0.IsFalse() {
+		if st.dead() && !dead0 {
 			ex.initSkipped = append(ex.initSkipped, name+": panics during initialisation (skipped)")
-			st.pc = pc0
+			st.pcs, st.isDead, st.pcMemo = pc0, dead0, nil
 			res = zeroResult(fn)
 		}
 		ex.inLenient = false
@@ -667,8 +733,8 @@ func (ex *Exec) run(st *State, fr *Frame, b *ssa.BasicBlock, stop *ssa.BasicBloc
 				}
 				return false
 			case *ssa.Panic:
-				ex.panics = append(ex.panics, Event{Kind: "explicit panic", PC: st.pc, Pos: ex.pos(in), Case: ex.curCase})
-				st.pc = False
+				ex.panics = append(ex.panics, Event{Kind: "explicit panic", PC: st.pcTerm(), Pos: ex.pos(in), Case: ex.curCase})
+				st.kill()
 				return false
 			case *ssa.If:
 				c := ex.get(fr, in.Cond).(*Term)
@@ -685,19 +751,19 @@ func (ex *Exec) run(st *State, fr *Frame, b *ssa.BasicBlock, stop *ssa.BasicBloc
 					}
 					switch {
 					case !t1 && !t2:
-						st.pc = False
+						st.kill()
 						return false
 					case t1 && !t2:
-						st.pc = And(st.pc, c)
+						st.assume(c)
 						next = b.Succs[0]
 					case !t1 && t2:
-						st.pc = And(st.pc, Not(c))
+						st.assume(Not(c))
 						next = b.Succs[1]
 					default:
 						// unwinding check: a symbolic branch revisited too often in this frame
 						if fr.nest[b] >= ex.unwind {
-							ex.unwinds = append(ex.unwinds, Event{Kind: "unwind", PC: st.pc, Pos: ex.pos(in), Case: ex.curCase})
-							st.pc = False
+							ex.unwinds = append(ex.unwinds, Event{Kind: "unwind", PC: st.pcTerm(), Pos: ex.pos(in), Case: ex.curCase})
+							st.kill()
 							return false
 						}
 						ip := ex.ipdom(fr.fn)[b]
@@ -707,7 +773,7 @@ func (ex *Exec) run(st *State, fr *Frame, b *ssa.BasicBlock, stop *ssa.BasicBloc
 							if k == 1 {
 								g = Not(c)
 							}
-							a := &arm{g: g, st: &State{heap: newHeap(st.heap), pc: And(st.pc, g)}, fr: fr.clone()}
+							a := &arm{g: g, st: st.fork(g), fr: fr.clone()}
 							arms[k] = a
 							a.fr.nest[b]++
 							succ := b.Succs[k]
